@@ -277,7 +277,7 @@ def profile(pid, tier):
                                                                  Kinds={"begin", "commit", "insA", "del", "crIdx"}), 2),
         ]
         if thorough:
-            design += [("3 sessions x 3", consts(NS=3, MaxStmts=3, VVals={"p"}, ExplIds={1}, TxSessions={1, 2, 3}, Kinds={"begin", "commit", "insA", "del", "updU"}), 8),
+            design += [("2 tx sessions + 1 autocommit session x 3", consts(NS=3, MaxStmts=3, VVals={"p"}, ExplIds={1}, TxSessions={1, 2}, Kinds={"begin", "commit", "insA", "del"}), 8),
                        ("2 tx sessions x 4", consts(NS=2, MaxStmts=4, VVals={"p"}, ExplIds={1}, Kinds={"begin", "commit", "insA", "del", "ups", "updU"}), 8)]
         code = [
             ("uniq_tombstone_first", consts(NS=1, MaxStmts=4, VVals={"p"}, TxSessions=set(), Kinds={"insA", "del"}, Quirks={"uniq_tombstone_first"}), {"ConstraintsHold"}),
